@@ -3,6 +3,7 @@
 EXTENDS StunClient, Json
 CONSTANT SimDepth   \* > 0: export every behaviour of that length as a schedule ("SCHED <json>")
 
+DepthBound == SimDepth = 0 \/ Len(hist) <= SimDepth
 ExportSchedules == (SimDepth > 0 /\ Len(hist) = SimDepth) => PrintT("SCHED " \o ToJson(hist))
 
 MkMsg(target, ok, cls, mi, sha, fp) ==
@@ -40,6 +41,14 @@ MsgsStSmall ==
     \cup {MkMsg("tx", TRUE, "indication", "valid", "absent", "absent"),
           MkMsg("tx", TRUE, "indication", "invalid", "absent", "absent"),
           MkMsg("fin", TRUE, "success", "valid", "absent", "absent")}
+\* exhaustive schedule enumeration (every behaviour up to a depth is exported and replayed)
+MsgsExh == {MkMsg("tx", TRUE, "success", "absent", "absent", "absent"),
+            MkMsg("fin", TRUE, "success", "absent", "absent", "absent"),
+            MkMsg("tx", TRUE, "indication", "absent", "absent", "absent")}
+MsgsExhSt == {MkMsg("tx", TRUE, "success", "valid", "absent", "absent"),
+              MkMsg("tx", TRUE, "success", "invalid", "absent", "absent"),
+              MkMsg("tx", TRUE, "success", "absent", "valid", "absent"),
+              MkMsg("fin", TRUE, "success", "valid", "absent", "absent")}
 MsgsA == MsgsNoMech({"absent"})
 MsgsB == MsgsNoMech({"valid", "invalid", "absent"})
 MsgsC == MsgsSt({"absent"})
